@@ -104,7 +104,7 @@ class GateSemanticsWorld(_DeviceBase):
                 "max_width": rng.choice([2, 3, 4, 5] if not thorough else [3, 4, 5, 6]),
                 "n_shots": rng.choice([1, 7, 100, 10 ** 4] if not thorough else [1, 7, 100, 10 ** 4, 10 ** 5]),
                 "faults": rng.random() < 0.8, "bias_rate": rng.choice([0.15, 0.3]),
-                "sympy_budget": 1 if not thorough else 3, "init_p": rng.choice([0.0, 0.4, 0.8]),
+                "sympy_budget": rng.choice([1, 1, 2, 3]) if not thorough else 3, "init_p": rng.choice([0.0, 0.4, 0.8]),
                 "kinds": rng.sample(["one", "par", "c", "cpar", "swap", "xx", "cswap", "mc"], rng.randint(3, 8))}
 
     def __init__(self, ctx, config=None):
@@ -128,7 +128,7 @@ class GateSemanticsWorld(_DeviceBase):
         if r < 0.2:
             return {"k": "set_shots", "b": rng.choice(["cirq_shots", "stub"]), "ns": rng.choice([1, 3, 7, 14, 49, 50, 51, 100, 150, 1000, 10 ** 4])}
         if r < 0.3 and self.circ_pool:
-            how = rng.choice(["reindex", "reindex", "add", "trim", "param"])
+            how = rng.choice(["reindex", "reindex", "add", "trim", "param", "read", "read"])
             perm = list(range(8))
             rng.shuffle(perm)
             return {"k": "mutate_circ", "i": rng.randrange(8), "how": how, "perm": perm, "gate": C.gen_gate_j(rng, 2, allow=("one", "par", "c"), var_p=0.0),
@@ -151,8 +151,8 @@ class GateSemanticsWorld(_DeviceBase):
             wide = n + (rng.randint(0, 1) if rng.random() < 0.3 else 0)       # idle qubits
             init = C.gen_state(rng, wide) if rng.random() < cfg["init_p"] else None
             op = {"k": "exact", "b": b, "gates": gates, "n": wide, "init": init, "ret_sv": rng.random() < 0.8}
-            if b == "cirq" and rng.random() < 0.3:
-                op["reuse_circ"] = rng.randrange(8)
+            if rng.random() < (0.3 if b == "cirq" else 0.5):
+                op["reuse_circ"] = rng.randrange(8)     # (sympy: only taken up if the pooled circuit is small enough)
             return op
         b = rng.choice(["cirq_shots", "cirq_shots", "stub"])
         perm = rng.random() < 0.45
@@ -199,6 +199,21 @@ class GateSemanticsWorld(_DeviceBase):
                     return V
                 e["obj"].add_gate(C.j_to_gate(g))
                 e["gates"] = e["gates"] + [g]
+            elif how == "read":
+                # read-only use of a long-lived circuit between simulations: iteration abandoned early, full iteration, queries
+                o = e["obj"]
+                m = op["perm"][0] % 4
+                if m == 0:
+                    next(iter(o), None)
+                elif m == 1:
+                    for i, _g in enumerate(o):
+                        if i >= op["perm"][1] % 3:
+                            break
+                elif m == 2:
+                    any(g.name == "no-such-gate" for g in o)
+                else:
+                    o.depth(), o.counts, o.width, o.size, len(list(o)), str(o)
+                ctx.probe("C01.circuit_object_read_between_calls")
             elif how == "param":
                 # the parameters of the gates of a circuit may be modified in place (documented for variational workflows)
                 idx = [i for i, g in enumerate(e["gates"]) if g[0] in R.PARAMETERIZED]
@@ -215,7 +230,9 @@ class GateSemanticsWorld(_DeviceBase):
             ctx.probe("C01.circuit_object_modified_in_place_between_calls")
             snap_now = [C.snap_to_j(x) for x in C.snap_circuit(e["obj"])]
             if [g[:4] for g in snap_now] != [[g[0], list(g[1]), (list(g[2]) if g[2] is not None else None), g[3]] for g in e["gates"]]:
-                raise HarnessError(f"circuit pool model out of sync after {how}")
+                # (on the unchanged tree this never fires; reading or modifying a circuit through its API left it with other gates)
+                V.append(Violation("C01", "circuit-contents-differ-from-what-was-built", f"mutate_circ:{how}", {"expected": e["gates"][:6], "got": snap_now[:6]}))
+                self.circ_pool.remove(e)
             return V
         raise HarnessError(k)
 
@@ -246,7 +263,10 @@ class GateSemanticsWorld(_DeviceBase):
         ce = None
         if record and op.get("reuse_circ") is not None and self.circ_pool:
             ce = self.circ_pool[op["reuse_circ"] % len(self.circ_pool)]
-            ctx.probe("C01.circuit_object_reused")
+            if op["b"] == "sympy" and (ce["n"] > 3 or len(ce["gates"]) > 6):
+                ce = None
+            else:
+                ctx.probe("C01.circuit_object_reused" + (":sympy" if op["b"] == "sympy" else ""))
         if ce is not None:
             circ, gates_j, n = ce["obj"], ce["gates"], ce["n"]
             init_j = op.get("init") if op.get("init") is not None and len(op["init"]) == 2 ** n else None
@@ -254,7 +274,7 @@ class GateSemanticsWorld(_DeviceBase):
             gates_j, n = op["gates"], op["n"]
             init_j = op.get("init")
             circ = D.mk_circuit(gates_j, n)
-            if record and op["b"] in ("cirq", "cirq_shots") and 2 <= n <= 5 and len(gates_j) > 0:
+            if record and (op["b"] in ("cirq", "cirq_shots") or (op["b"] == "sympy" and n <= 3)) and 2 <= n <= 5 and len(gates_j) > 0:
                 self.circ_pool.append({"obj": circ, "gates": [list(g) for g in gates_j], "n": n})
                 self.circ_pool = self.circ_pool[-4:]
         op = dict(op, gates=gates_j, n=n, init=init_j)
@@ -284,7 +304,12 @@ class GateSemanticsWorld(_DeviceBase):
                     return [Violation("C01", "unexpected-refusal", site, {"exception": repr(ex)[:300], "op": op})]
                 ctx.outcome(k, "refused-as-expected")
                 ctx.fault("unsupported_on_backend")
-                return V
+                # a refused call must leave nothing behind: the same call on the same objects is refused again
+                try:
+                    f2, _ = b.simulate(circ, return_statevector=bool(op.get("ret_sv")), initial_statevector=init_sut)
+                except Exception:
+                    return V
+                return [Violation("C01", "unsupported-circuit-accepted-on-second-attempt", site, {"frequencies": {kk: _num(v) for kk, v in list(f2.items())[:6]}, "op": op})]
             ctx.outcome(k, "ok")
             ctx.check("C01.exact")
             tol = 1e-8 if op["b"] == "cirq" else 1e-6
